@@ -2,4 +2,6 @@ import props.trees as T
 
 
 def run(chk):
-    return T.run(chk, "C13", T.view_c13, ["PV.Props.C13"], "C13 trees")
+    # PVMath.C13Log (second lean_lib, imports single Mathlib modules; never imported by the driver) turns the
+    # integer bounds into the real-valued 1.4405*log2(n+2) / 2*log2(n+1) forms of the property statement
+    return T.run(chk, "C13", T.view_c13, ["PV.Props.C13", "PVMath.C13Log"], "C13 trees")
